@@ -755,4 +755,152 @@ theorem main_string_start (st : St) (pos : Nat) (hm : st.mode = .main) :
   rw [step_hit st 40 pos (Or.inr ⟨isNONSPC, by simp [hm, searchClass], n40⟩)]
   simp [atHit, hm, parseMainHit, d40, a40]
 
+/-! ### keywords (`null`, `true`, `false`, `R`) -/
+
+theorem alpha_facts : ∀ c : UInt8,
+    (!isAlpha c || (!isEND_KEYWORD c && isNONSPC c && c != 37 && c != 47 && c != 45 && c != 43 && !isDigit c && c != 46)) = true :=
+  forall_byte _ (by decide +kernel)
+
+/-- In the main scanner a letter starts a keyword token. -/
+theorem main_keyword_start (st : St) (c : UInt8) (pos : Nat) (hm : st.mode = .main) (hc : isAlpha c = true) :
+    stepByte st c pos = ({ st with tpos := pos, cur := [c], mode := .keyword }, []) := by
+  have hf := alpha_facts c
+  simp only [hc, Bool.not_true, Bool.false_or, Bool.and_eq_true, bne_iff_ne, ne_eq, Bool.not_eq_true'] at hf
+  obtain ⟨⟨⟨⟨⟨⟨⟨_, hns⟩, h37⟩, h47⟩, h45⟩, h43⟩, hd⟩, h46⟩ := hf
+  rw [step_hit st c pos (Or.inr ⟨isNONSPC, by simp [hm, searchClass], hns⟩)]
+  simp [atHit, hm, parseMainHit, h37, h47, h45, h43, hd, h46, hc]
+
+/-- A word of letters followed by a byte of END_KEYWORD is one keyword token (`true`/`false` are booleans). -/
+theorem keyword_spelling (st : St) (hm : st.mode = .main) (c : UInt8) (w : Bytes) (d : UInt8) (pos : Nat)
+    (hc : isAlpha c = true) (hw : ∀ x ∈ w, isAlpha x = true) (hd : isEND_KEYWORD d = true) :
+    stepByte (foldBytes st (c :: w) pos).1 d (pos + (c :: w).length) =
+      ((stepByte { st with tpos := pos, cur := c :: w, mode := .main } d (pos + (c :: w).length)).1,
+       (pos, if (c :: w) == kwTrue then Token.bool true else if (c :: w) == kwFalse then Token.bool false
+             else Token.kwd (c :: w)) ::
+        (stepByte { st with tpos := pos, cur := c :: w, mode := .main } d (pos + (c :: w).length)).2) ∧
+    (foldBytes st (c :: w) pos).2 = [] := by
+  have hne : ∀ x ∈ w, isEND_KEYWORD x = false := by
+    intro x hx
+    have hf := alpha_facts x
+    simp only [hw x hx, Bool.not_true, Bool.false_or, Bool.and_eq_true, Bool.not_eq_true'] at hf
+    exact hf.1.1.1.1.1.1.1
+  have h1 : foldBytes st (c :: w) pos = ({ st with tpos := pos, cur := c :: w, mode := .keyword }, []) := by
+    simp only [foldBytes, main_keyword_start st c pos hm hc]
+    have := fold_nonmatch isEND_KEYWORD w [] { st with tpos := pos, cur := [c], mode := .keyword } (pos + 1)
+      (by simp [searchClass]) hne
+    simp only [List.append_nil] at this
+    rw [this]
+    simp [foldBytes, accum]
+  rw [h1]
+  refine ⟨?_, rfl⟩
+  rw [step_hit _ d _ (Or.inr ⟨isEND_KEYWORD, by simp [searchClass], hd⟩)]
+  simp only [atHit, parseKeywordHit, emit]
+  simp
+
+/-! ### real numbers -/
+
+theorem dot_facts : (isNONSPC 46 && isEND_NUMBER 46 && !isDigit 46 && !isAlpha 46) = true := by decide +kernel
+
+/-- `[+-]? d* . d*` is accumulated as one pending float token (at least one digit is needed for a value). -/
+theorem real_spelling_pending (st : St) (hm : st.mode = .main) (sign ip fp : Bytes) (pos : Nat)
+    (hs : sign = [] ∨ sign = [43] ∨ sign = [45]) (hip : ∀ c ∈ ip, isDigit c = true)
+    (hfp : ∀ c ∈ fp, isDigit c = true) :
+    foldBytes st (sign ++ ip ++ 46 :: fp) pos =
+      ({ st with tpos := pos, cur := sign ++ ip ++ 46 :: fp, mode := .float }, []) := by
+  have hdot := dot_facts
+  simp only [Bool.and_eq_true, Bool.not_eq_true'] at hdot
+  obtain ⟨⟨⟨n46, e46⟩, d46⟩, a46⟩ := hdot
+  have hfl : ∀ (s0 : St) (p : Nat), s0.mode = .float →
+      foldBytes s0 fp p = ({ s0 with cur := s0.cur ++ fp }, []) := by
+    intro s0 p hm0
+    have h := fold_nonmatch isEND_NUMBER fp [] s0 p (by simp [hm0, searchClass])
+      (fun x hx => by have := digit_facts x; simp [hfp x hx] at this; exact this.1.1.1.1.1)
+    simp only [List.append_nil] at h
+    rw [h]; simp [foldBytes, accum, hm0]
+  -- `.` while a number is pending
+  have hnumdot : ∀ (s0 : St) (p : Nat), s0.mode = .number →
+      stepByte s0 46 p = ({ s0 with cur := s0.cur ++ [46], mode := .float }, []) := by
+    intro s0 p hm0
+    rw [step_hit s0 46 p (Or.inr ⟨isEND_NUMBER, by simp [hm0, searchClass], e46⟩)]
+    simp [atHit, hm0, parseNumberHit]
+  by_cases hempty : sign ++ ip = []
+  · -- the token starts with the dot
+    have h1 : sign = [] := by cases sign <;> simp_all
+    have h2 : ip = [] := by cases ip <;> simp_all
+    subst h1; subst h2
+    have hstart : stepByte st 46 pos = ({ st with tpos := pos, cur := [46], mode := .float }, []) := by
+      rw [step_hit st 46 pos (Or.inr ⟨isNONSPC, by simp [hm, searchClass], n46⟩)]
+      simp [atHit, hm, parseMainHit, d46]
+    simp only [List.nil_append, foldBytes, hstart]
+    rw [hfl _ _ rfl]
+    simp
+  · -- a sign and/or digits first: pending number, then the dot
+    have hpend : ∃ c t, sign ++ ip = c :: t ∧ (isDigit c = true ∨ c = 43 ∨ c = 45) ∧ ∀ x ∈ t, isDigit x = true := by
+      rcases hs with rfl | rfl | rfl
+      · cases ip with
+        | nil => simp at hempty
+        | cons c t => exact ⟨c, t, rfl, Or.inl (hip c (by simp)), fun x hx => hip x (by simp [hx])⟩
+      · exact ⟨43, ip, rfl, Or.inr (Or.inl rfl), hip⟩
+      · exact ⟨45, ip, rfl, Or.inr (Or.inr rfl), hip⟩
+    obtain ⟨c, t, hct, hc, ht⟩ := hpend
+    have e : sign ++ ip ++ 46 :: fp = c :: (t ++ 46 :: fp) := by rw [hct]; simp
+    rw [e]
+    simp only [foldBytes, main_number_start st c pos hm hc]
+    rw [foldBytes_append, number_digits _ t (pos + 1) rfl ht]
+    simp only [foldBytes]
+    rw [hnumdot]
+    · rw [hfl]
+      · simp
+      · rfl
+    · rfl
+
+/-- A pending float token ends at any non-digit: the real is emitted (if `float()` accepts the text)
+    and the byte is handled by the main scanner. -/
+theorem float_end (sp : St) (d : UInt8) (p : Nat) (hm : sp.mode = .float) (hd : isEND_NUMBER d = true)
+    (hv : pyFloatOk sp.cur = true) :
+    stepByte sp d p =
+      ((stepByte { sp with mode := .main } d p).1,
+       (sp.tpos, Token.real sp.cur) :: (stepByte { sp with mode := .main } d p).2) := by
+  rw [step_hit sp d p (Or.inr ⟨isEND_NUMBER, by simp [hm, searchClass], hd⟩)]
+  simp [atHit, hm, parseFloatHit, hv, emit]
+
+theorem takeWhile_digits (ip : Bytes) (rest : Bytes) (hip : ∀ c ∈ ip, isDigit c = true) :
+    (ip ++ 46 :: rest).takeWhile isDigit = ip ∧ (ip ++ 46 :: rest).dropWhile isDigit = 46 :: rest := by
+  have d46 : isDigit 46 = false := by decide
+  induction ip with
+  | nil => simp [List.takeWhile, List.dropWhile, d46]
+  | cons c t ih =>
+    have hc := hip c (by simp)
+    have := ih (fun x hx => hip x (by simp [hx]))
+    simp [List.takeWhile, List.dropWhile, hc, this.1, this.2]
+
+theorem pyFloatOk_spelling (sign ip fp : Bytes) (hs : sign = [] ∨ sign = [43] ∨ sign = [45])
+    (hip : ∀ c ∈ ip, isDigit c = true) (hfp : ∀ c ∈ fp, isDigit c = true) (hne : ¬ (ip = [] ∧ fp = [])) :
+    pyFloatOk (sign ++ ip ++ 46 :: fp) = true := by
+  have hbody : floatBody (ip ++ 46 :: fp) = true := by
+    have h := takeWhile_digits ip fp hip
+    simp only [floatBody, h.1, h.2]
+    have hall : fp.all isDigit = true := List.all_eq_true.mpr hfp
+    simp only [hall, Bool.true_and]
+    cases ip with
+    | nil => cases fp with
+      | nil => simp at hne
+      | cons _ _ => simp
+    | cons _ _ => simp
+  rcases hs with rfl | rfl | rfl
+  · simp only [List.nil_append]
+    cases ip with
+    | nil => simp only [List.nil_append, pyFloatOk]; simpa using hbody
+    | cons c t =>
+      have hc := hip c (by simp)
+      have h45 : c ≠ 45 := by intro e; subst e; have := sign_facts; simp at this; simp_all
+      have h43 : c ≠ 43 := by intro e; subst e; have := sign_facts; simp at this; simp_all
+      simp only [List.cons_append, pyFloatOk]
+      split
+      · rename_i heq; simp at heq; exact absurd heq.1 h45
+      · rename_i heq; simp at heq; exact absurd heq.1 h43
+      · simpa using hbody
+  · simpa [pyFloatOk] using hbody
+  · simpa [pyFloatOk] using hbody
+
 end PdfVerif.Lexer
